@@ -29,6 +29,8 @@ What is proved here, for every key length `n > 0`, every tree and every history:
                            `Commit` returns, under `ParOK` (one valid operation per key, nothing reserved, no key equal
                            to a synthetic border); `root_is_pure` puts sequential, parallel and batching together
 
+* `workers_receive_ascending_order`   the sort comparators of `Commit` and `sortOperationsByPrefix`, translated from their
+                           closures, are the strict bitwise key order the model sorts by
 * `copy_does_not_carry_commitment`, `clone_root_canonical`   `Store.Copy()` hands no cached commitment to the clone
                            (generated fact), so the clone's `Root()` is the canonical tree of the clone's own state
 * `node_cache_coherent`, `node_cache_transparent`   the in-memory node cache of `setNode`/`getNode`/`delNode` (model
@@ -163,6 +165,27 @@ theorem parallel_eq_sequential {n : Nat} (hn : 4 ≤ n) {t : Trie} {S : KMap} {o
   split
   · rfl
   · exact h2
+
+/-- **Tie to the source: the order a batch is committed in.** The comparators of `sort.Slice` in `(*SMT).Commit` and in
+`(*SMT).sortOperationsByPrefix` (the order in which each of the eight workers of `CommitParallel` receives its group) are
+TRANSLATED from their closures on every run (`Gen.SmtFacts.sequentialSortLess`, `parallelSortLess`; the translator
+accepts only the single statement `return X.cmp(Y) < 0`). Both are the strict bitwise key order — the very order the
+model's `sortOps` sorts by (`keyLe`) — so every worker gets its group in ASCENDING key order. `parallel_eq_sequential`
+itself does not need the order (at the level of the tree algorithm any order gives the same tree, by history
+independence); the stored-node algorithm of smt.go does — `commit()` / `rehash()` skip re-hashing and keep the traversal
+position on the assumption that the next target is not smaller — and that level is tied to the model by the
+correspondence run (corpus `parallel-order-tie`: keys sharing 32..46 leading hash bits). A comparator with swapped operands,
+or one that mis-orders ties of a fast path, fails this theorem (or leaves the translator's subset). -/
+theorem workers_receive_ascending_order (a b : Key) (h : a.length = b.length) :
+    Gen.SmtFacts.parallelSortLess keyCmp a b = (!keyLe b a)
+    ∧ Gen.SmtFacts.sequentialSortLess keyCmp a b = (!keyLe b a) :=
+  ⟨keyCmp_neg_iff a b h, keyCmp_neg_iff a b h⟩
+
+/-- non-vacuity / sanity of the order: 0101 before 0110, not the other way round, and never a key before itself -/
+example :
+    Gen.SmtFacts.parallelSortLess keyCmp [false, true, false, true] [false, true, true, false] = true
+    ∧ Gen.SmtFacts.parallelSortLess keyCmp [false, true, true, false] [false, true, false, true] = false
+    ∧ Gen.SmtFacts.parallelSortLess keyCmp [false, true] [false, true] = false := by decide
 
 /-- the hypotheses of `parallel_eq_sequential` are satisfiable by a non-trivial batch (n = 5; one set, one delete) -/
 example : ParOK 5 (initMap 5) [.set [false, true, false, true, false] [1], .del [true, false, true, true, false]] := by
